@@ -90,6 +90,10 @@ def judge(case, real, extra, cache):
     if writes_then == 0:
         # fault before any output: one complete 500, then close
         want = reference_500(case, cache)
+        if case["req"]["head"]:
+            # the 500 to a HEAD request is the head of that 500, Content-Length included, without
+            # the body (fix 52947ac: the ladder's err_request inherits the command)
+            want = want[:want.index(b"\r\n\r\n") + 4]
         if case["disc"] is None:
             if wire != want:
                 out.append(("failure before any output did not produce the complete 500", repr(want[:60]), repr(wire[:60]), None))
@@ -113,7 +117,7 @@ def conc_search(ctx):
     thorough = ctx.tier == "thorough"
     rng = random.Random(ctx.rng.getrandbits(48))
     t0 = time.time()
-    budget = 240.0 if thorough else 21.0
+    budget = 300.0 if thorough else 21.0
     st = {"runs": 0, "quiescent": 0, "overrun": 0, "handovers": 0, "race_window_runs": 0, "write_soon_file_raised_ClientDisconnected": 0,
           "repeated_teardown_closes": 0, "violating_runs": 0, "forced_fair_switches": 0}
     sites, kinds, discs, policies, grans, verdicts, viol_pol = {}, {}, {}, {}, {}, {}, {}
@@ -190,7 +194,7 @@ def conc_search(ctx):
     quick_plan = {"tiny-file-before-head": (("locks", 2, 200), ("attrs", 1, 360)), "tiny-file-between": (("locks", 2, 200),),
                   "tiny-file-gated": (("locks", 2, 200), ("attrs", 1, 260))}
     for name, scn in C.tiny_scenarios():
-        for gran, bound, lim in ((("locks", 2, 4000), ("attrs", 1, 1500)) if thorough else quick_plan.get(name, (("locks", 1, 200),))):
+        for gran, bound, lim in ((("locks", 3, 5000), ("attrs", 2, 3000)) if thorough else quick_plan.get(name, (("locks", 1, 200),))):
             g = scn.with_granularity(gran)
 
             def run_case(prefix, g=g, name=name):
